@@ -28,7 +28,7 @@ DIRS = [0, 45, 90, 135, 180, 225, 270, 315, 17, 200]
 DISTS = [2.0, 37.5, 2.0e-9, 3.0e9]
 # thorough tier: finer directions, more chord lengths (incl. tiny / huge), more rotations, far-away start points
 DIRS_T = sorted(set(DIRS + list(range(0, 360, 15)) + [1, 89.999, 90.001, 179.5, 271, 359.9]))
-DISTS_T = [2.0, 37.5, 1e-3, 0.7, 4.0e4]
+DISTS_T = [2.0, 37.5, 1e-3, 0.7, 4.0e4, 2.0e-9, 3.0e9]
 ROTS_T = [0, 90, 180, 270, 30, -45, 123.4, 400, -725, 1e-3, 89.99, 45, 60, -90, 360, 179.999]
 STARTS_T = [1.25 - 0.5j, 0j, -3.0e5 + 2.0e5j]
 RADII = [(0.3, 0.3), (1.0, 1.0), (1.0 + 1e-12, 1.0 + 1e-12), (1.0 - 1e-12, 1.0), (1.0 + 1e-7, 1.0 + 1e-7),
@@ -50,7 +50,8 @@ def grid(tier):
         yield d, dist, r, rot, fl
     # far-away / origin start points on the quick-tier alphabet
     for si in (1, 2):
-        for d, dist, r, rot, fl in itertools.product(DIRS, DISTS, RADII, ROTS, FLAGS):
+        # (ordinary chord lengths only: a 2e-9 chord 3.6e5 units from the origin is a few float spacings long)
+        for d, dist, r, rot, fl in itertools.product(DIRS, DISTS[:2], RADII, ROTS, FLAGS):
             yield d, dist, r, rot, fl, si
 
 
